@@ -905,6 +905,7 @@ package erpc
 //@   modifies allof(type(session)), allof(type(socket.socket)), lockset, waitgroups, channels, mapviews
 //@   ensures[index-only-own-entry] forall h *SessionHub, k iface :: {h.sessions.#gkeys[k]} old(h.sessions.#gvals[k]) != iface(type(*session), s) ==> h.sessions.#gkeys[k] == old(h.sessions.#gkeys[k]) && h.sessions.#gvals[k] == old(h.sessions.#gvals[k])
 //@   requires?[notify-flag-tracks-channel] (s.didCloseNotify == 0 <==> !chanClosed(s.closeNotifyCh)) && (s.didCloseNotify == 0 || s.didCloseNotify == 1)
+//@   ensures[own-index-entry-removed] old(s.status) == statusOk || old(s.status) == statusPreparing ==> !hubHas(old(s.peer.sessHub), old(sessID(s)), s)
 //@   ensures[closed-for-good] old(s.status) == statusOk || old(s.status) == statusPreparing ==> s.status == statusActiveClosed && ghost.postDisconnectRuns == old(ghost.postDisconnectRuns) + 1 && chanClosed(s.closeNotifyCh) && s.didCloseNotify == 1
 //@   ensures[no-op-unless-established] !(old(s.status) == statusOk || old(s.status) == statusPreparing) ==> s.status == old(s.status) && ghost.postDisconnectRuns == old(ghost.postDisconnectRuns) && s.didCloseNotify == old(s.didCloseNotify)
 //@   ensures[waits-for-handlers-and-calls] @C07 @C08 old(s.status) == statusOk || old(s.status) == statusPreparing ==> waited(addr(s.graceCtxWaitGroup)) && waited(addr(s.graceCallCmdWaitGroup))
@@ -946,7 +947,7 @@ package erpc
 //@   property C07
 //@   modifies sh.sessions.#gkeys
 //@   requires sh.sessions != nil
-//@   ensures[removes-only-own-entry] forall k iface :: {sh.sessions.#gkeys[k]} (k != iface(type(string), id) || old(sh.sessions.#gvals[k]) != iface(type(*session), sess)) ==> sh.sessions.#gkeys[k] == old(sh.sessions.#gkeys[k])
+//@   ensures[removes-only-own-entry] forall k iface :: {sh.sessions.#gkeys[k]} (k != iface(type(string), id) || old(sh.sessions.#gvals[k]) != iface(type(*session), sess) || !old(sh.sessions.#gkeys[k])) ==> sh.sessions.#gkeys[k] == old(sh.sessions.#gkeys[k])
 //@   ensures[own-entry-removed] old(hubHas(sh, id, sess)) ==> !sh.sessions.#gkeys[iface(type(string), id)]
 
 // (index values are the sessions put there by set, whose precondition this is)
@@ -984,10 +985,25 @@ package erpc
 //@ trusted newSession
 //@   flags libframe
 //@   ensures result != nil
-//@ trusted (*pluginSingleContainer).postAccept
-//@   flags libframe
-//@   modifies allof(type(session)), allof(type(socket.socket)), lockset, mapviews, ghost.lastAcceptOK
+// accept hooks: user code acting through the PreSession API; a hook may veto
+// (first non-OK verdict wins) or panic (which must count as a rejection)
+//@ ghost global acceptVetoed bool
+//@ iface erpc.PreSession.RemoteAddr
+//@   flags pure
+//@   ensures result != nil
+//@ iface erpc.PostAcceptPlugin.PostAccept
+//@   flags libframe may-panic
+//@   modifies allof(type(session)), allof(type(socket.socket)), lockset, mapviews, ghost.acceptVetoed
+//@   ghostset ghost.acceptVetoed = old(ghost.acceptVetoed) || !statOK(result)
+//@ func (*pluginSingleContainer).postAccept
+//@   property C16
+//@   flags recover-scope libframe frame-unchecked
+//@   requires @C16 sentinelsIntact()
+//@   modifies allof(type(session)), allof(type(socket.socket)), lockset, mapviews, ghost.lastAcceptOK, ghost.acceptVetoed
 //@   ghostset ghost.lastAcceptOK = statOK(result)
+//@   ensures[a-veto-rejects] @C16 statOK(result) ==> ghost.acceptVetoed == old(ghost.acceptVetoed)
+//@   ensures[a-panicking-hook-rejects]!! @C16 !statOK(result)
+//@   loop 0: invariant[no-veto-so-far] @C16 ghost.acceptVetoed == old(ghost.acceptVetoed)
 // the listener's per-connection function: same admission order as ServeConn
 //@ trusted (*session).startReadAndHandle in erpc.(*peer).serveListener$1
 //@   flags libframe
@@ -998,8 +1014,8 @@ package erpc
 //@ func (*peer).serveListener$1
 //@   property C16 C07
 //@   flags libframe frame-unchecked
-//@   requires p != nil && p.pluginContainer != nil && p.sessHub != nil
-//@   modifies allof(type(session)), allof(type(socket.socket)), allof(type(callCmd)), lockset, waitgroups, channels, mapviews, ghost.sessionCloses, ghost.postDisconnectRuns, ghost.readerRuns, ghost.lastAcceptOK, ghost.hubSets
+//@   requires p != nil && p.pluginContainer != nil && p.sessHub != nil && sentinelsIntact()
+//@   modifies ghost.acceptVetoed, allof(type(session)), allof(type(socket.socket)), allof(type(callCmd)), lockset, waitgroups, channels, mapviews, ghost.sessionCloses, ghost.postDisconnectRuns, ghost.readerRuns, ghost.lastAcceptOK, ghost.hubSets
 //@   ensures[read-only-if-admitted] ghost.readerRuns > old(ghost.readerRuns) ==> ghost.lastAcceptOK
 //@   ensures[rejected-connection-closed-as-session] @C07 !ghost.lastAcceptOK && ghost.sessionCloses == old(ghost.sessionCloses) ==> ghost.readerRuns == old(ghost.readerRuns)
 //@ func (*peer).ServeConn
@@ -1007,8 +1023,8 @@ package erpc
 //@   ensures[rejected-connection-never-read] @C16 !statOK(result.1) ==> ghost.anywayGos == old(ghost.anywayGos)
 //@   ensures[admitted-connection-read-once] @C16 statOK(result.1) ==> ghost.anywayGos == old(ghost.anywayGos) + 1 && ghost.lastAcceptOK
 //@   flags libframe frame-unchecked
-//@   requires p.pluginContainer != nil && p.sessHub != nil
-//@   modifies allof(type(session)), allof(type(socket.socket)), lockset, waitgroups, channels, mapviews, ghost.sessionCloses, ghost.postDisconnectRuns, ghost.handleScheduled, ghost.anywayGos, ghost.lastAcceptOK, ghost.hubSets
+//@   requires p.pluginContainer != nil && p.sessHub != nil && sentinelsIntact()
+//@   modifies allof(type(session)), allof(type(socket.socket)), lockset, waitgroups, channels, mapviews, ghost.acceptVetoed, ghost.sessionCloses, ghost.postDisconnectRuns, ghost.handleScheduled, ghost.anywayGos, ghost.lastAcceptOK, ghost.hubSets
 //@   ensures[rejected-connection-closed-as-session] !statOK(result.1) && statCode(result.1) != CodeWrongConn ==> ghost.sessionCloses == old(ghost.sessionCloses) + 1
 //@   ensures[accepted-session-returned] statOK(result.1) ==> result.0 != nil
 
